@@ -305,14 +305,32 @@ def run_driver(drv, b, script_lines, work, tag):
     return out, p.returncode, p.stderr.decode("utf8", "replace")[-600:]
 
 
-def trace_cfg(work, n):
-    cfg = os.path.join(work, "Trace_UndoIo_%d.cfg" % n)
+def trace_cfg(work, n, literal=()):
+    """literal = names of Dev* constants switched on: the trace is then only checked to be a behaviour of the literal
+    (pinned-tree) model -- the property invariants are not listed, the deviation is what breaks them."""
+    cfg = os.path.join(work, "Trace_UndoIo_%d%s.cfg" % (n, "".join("_" + d for d in literal)))
     consts = dict(N=n, MaxLen=n + 8, TdbSizes="{1}", BlkSizes="{1}", Offsets="{0}", KpbPerG=64, MaxExt=512, MaxOps=1000000,
                   MaxRuns=1000000, MaxSpan=1)
     consts.update(DEVS)
-    T.write_cfg(cfg, spec="TraceSpec", constants=consts, invariants=["U1", "U2", "U3", "R1", "R2", "Layout"],
+    for d in literal:
+        consts[d] = "TRUE"
+    T.write_cfg(cfg, spec="TraceSpec", constants=consts, invariants=[] if literal else ["U1", "U2", "U3", "R1", "R2", "Layout"],
                 postcondition="TraceAccepted")
     return cfg
+
+
+# Deviations of the pinned tree that are NOT repaired (their repair changes what tests/u_mke2fs_opt_offset documents, so it
+# cannot be a fix: commit): known findings.  A history the repaired specification rejects is attributed to a deviation iff it
+# is, line by line, a behaviour of the specification with exactly that deviation switched on.
+KNOWN_DEVS = (("DevAbsTiling",), ("DevChanUnits",), ("DevAbsTiling", "DevChanUnits"))
+
+
+def attribute_api(trace, n, work):
+    for devs in KNOWN_DEVS:
+        rej, matched, inv, tail, _ = tracecheck.confirm(trace, os.path.join(SPEC, "Trace_UndoIo.tla"), trace_cfg(work, n, devs), work)
+        if not rej:
+            return devs
+    return None
 
 
 def api_nontrivial(lines):
@@ -396,6 +414,12 @@ def api_conformance(ev, vd, tier, work, b, drv, rng):
             k = matched if matched is not None else 0
             line = traces[bi][k] if k < len(traces[bi]) else "(end)"
             what = ("invariant %s violated" % inv) if inv else "the real code left the specification"
+            devs = attribute_api(traces[bi], behs[bi][0], sub)
+            if devs:
+                for d in devs:
+                    vd.violation(d, "API history follows the literal model with %s" % "+".join(devs), {"kind": "api", "n": behs[bi][0], "script": api_script("DEV", "UNDO", *behs[bi])})
+                ev.cov["api_histories_taking_known_deviation"] = ev.cov.get("api_histories_taking_known_deviation", 0) + 1
+                continue
             vd.violation("api:%s" % (inv or "rejected"), "%s at line %d of an API history: %s" % (what, k, line[:240]),
                          {"kind": "api", "n": behs[bi][0], "script": api_script("DEV", "UNDO", *behs[bi]), "trace": traces[bi],
                           "first_unmatched_line": k, "tlc_tail": tail[-1500:]})
